@@ -73,10 +73,13 @@ Section Mono.
     unfold step_r. destruct (rget (rheap_of s) cur) as [D|]; [|auto].
     destruct (chk && negb (rpaused D =? 0)%Z); [auto|].
     destruct (rcbs D) as [|item more]; [auto|]. destruct item as [k cb eb|c]; [|auto].
-    destruct (if is_fail (rcur_result D) then eb else cb) as [[script b]|]; [|auto].
-    match goal with |- context [exec_script W ?sg script] =>
-      destruct (exec_script W sg script) as [[[s1 l] x]|] eqn:E; [|discriminate] end.
-    rewrite (exec_script_mono _ _ _ E). auto.
+    destruct (if is_fail (rcur_result D) then eb else cb) as [[script b|d2]|]; [| |auto].
+    - match goal with |- context [exec_script W ?sg script] =>
+        destruct (exec_script W sg script) as [[[s1 l] x]|] eqn:E; [|discriminate] end.
+      rewrite (exec_script_mono _ _ _ E). auto.
+    - match goal with |- context [fire_r W ?sg d2 ?v ?b] =>
+        destruct (fire_r W sg d2 v b) as [[[s1 l] fk]|] eqn:E; [|discriminate] end.
+      rewrite (fire_r_mono _ _ _ _ _ E). auto.
   Qed.
 
   Lemma exec_w_mono s o r : exec_w W s o = Some r -> exec_w W' s o = Some r.
